@@ -161,7 +161,7 @@ pub fn eval(expr: Node) -> Result<i64, Box<dyn error::Error>> {
                 for arg in <Vec<Node> as Clone>::clone(&args).into_iter() {
                     #[cfg(feature = "verif_hooks")]
                     crate::verif_hooks::tick(crate::verif_hooks::Point::EvalLoop);
-                    result = eval(arg).unwrap().min(result);
+                    result = eval(arg)?.min(result);
                 }
                 Ok(result)
             } else {
@@ -177,7 +177,7 @@ pub fn eval(expr: Node) -> Result<i64, Box<dyn error::Error>> {
                 for arg in <Vec<Node> as Clone>::clone(&args).into_iter() {
                     #[cfg(feature = "verif_hooks")]
                     crate::verif_hooks::tick(crate::verif_hooks::Point::EvalLoop);
-                    result = eval(arg).unwrap().max(result);
+                    result = eval(arg)?.max(result);
                 }
                 Ok(result)
             } else {
@@ -192,7 +192,7 @@ pub fn eval(expr: Node) -> Result<i64, Box<dyn error::Error>> {
             for arg in <Vec<Node> as Clone>::clone(&args).into_iter() {
                 #[cfg(feature = "verif_hooks")]
                 crate::verif_hooks::tick(crate::verif_hooks::Point::EvalLoop);
-                result += eval(arg).unwrap();
+                result += eval(arg)?;
             }
             let len = args.len() as i64;
             Ok(result / len)
@@ -202,7 +202,7 @@ pub fn eval(expr: Node) -> Result<i64, Box<dyn error::Error>> {
             for arg in <Vec<Node> as Clone>::clone(&args).into_iter() {
                 #[cfg(feature = "verif_hooks")]
                 crate::verif_hooks::tick(crate::verif_hooks::Point::EvalLoop);
-                results.push(eval(arg).unwrap());
+                results.push(eval(arg)?);
             }
             results.sort_by(|a, b| a.partial_cmp(b).unwrap());
             let len = results.len();
